@@ -459,7 +459,7 @@ def run(ctx):
     # ---------------- stress (real concurrency on fake workers)
     stress_cfgs = [(2, 1, 0), (3, 2, 0), (4, 2, 1), (2, 3, 3), (5, 1, 7)] if quick else \
                   [(2, 1, 0), (2, 2, 0), (3, 2, 0), (4, 2, 1), (2, 3, 3), (5, 1, 7), (4, 4, 0), (3, 3, 2), (6, 2, 50), (2, 4, 1)]
-    total = 20000 if quick else 60000
+    total = 8000 if quick else 30000
     reps = 1 if quick else 3
     nstress = 0
     for (n, w, ch) in stress_cfgs:
@@ -583,6 +583,25 @@ def run(ctx):
                 if len(samples) < 6 and K >= 3:
                     samples.append(dict(case, output=o[:200]))
 
+    # ---------------- diagnostic: McCoy re-queue starvation on a multi-worker shepherd (timing dependent; never decides pass/fail)
+    mcfgs = [(2, 2)] if quick else [(1, 2), (2, 2), (1, 4), (3, 2)]
+    mres = []
+    for (n, w) in mcfgs:
+        lines = ["M 2 200 3", "M 5 200 3"] if quick else ["M 1 300 4", "M 2 300 4", "M 3 300 4", "M 5 300 4"]
+        rc, out, err = core.run_lines(exe, lines, timeout=200, env=core.qenv(n, w, stack=65536), args=["live"])
+        for o in out:
+            m = re.match(r"M Y=(\d+) k=(\d+) starved=(\d) max_yield_latency=([0-9.]+)", o)
+            if m:
+                mres.append({"shepherds": n, "workers_per_shepherd": w, "yielders": int(m.group(1)), "starved": int(m.group(3)),
+                             "max_yield_latency_s": float(m.group(4))})
+    starved = [r for r in mres if r["starved"] or r["max_yield_latency_s"] > 1.0]
+    hist["M"] = len(mres)
+    ctx.cov["mccoy_requeue_starvation_probe"] = {"runs": len(mres), "starved_or_over_1s": len(starved), "worst": max([r["max_yield_latency_s"] for r in mres] or [0])}
+    if starved and core.match_known("C08", "mccoy-requeue-starvation") is not None:
+        ctx.violation("mccoy-requeue-starvation",
+                      "main (REAL_MCCOY) task yielding on a multi-worker shepherd was not run again for %.1f s while tasks busy-waiting with "
+                      "qthread_yield() for it kept running" % max(r["max_yield_latency_s"] for r in starved), {"mode": "live-mccoy", "runs": starved})
+
     # ---------------- verdict
     ctx.cov.update(evaluations=evals, distinct_nontrivial=nontrivial, samples=samples,
                    rule="m1: commands on 1-5 fake shepherds x 1-3 workers, state-aware generator (runs of stealable/unstealable nodes, "
@@ -599,6 +618,10 @@ def run(ctx):
         "pointer layer (next/prev splice) is not modelled in Coq: checked at run time by the two-direction pointer walk after every command",
         "spawn cache, task aggregation, local priority queue, eurekas are compiled out in the configured build and not modelled",
         "OS-level fairness of the worker pthreads (an idle thief eventually gets the CPU) is assumed"]
+    ctx.notes.append("finding (theorem mccoy_requeue_starvation_refuted): on a shepherd with >= 2 workers a worker other than worker 0 that pops the "
+                     "McCoy (main) task holds it between its pop and its re-queue at the head; a yielder running on worker 0 that yields in that "
+                     "window is popped again by worker 0, and the cycle can repeat: main is starved while tasks busy-wait with qthread_yield() "
+                     "for it.  Probe this run: %s" % ctx.cov.get("mccoy_requeue_starvation_probe"))
     ctx.notes.append("qthread_yield_near() with an empty ready queue on a single worker never returns (qt_scheduler_get_thread waits for a task "
                      "that cannot come): the model reports HANG for these programs and they are not run on the real code (%d generated)" % nhang)
     broken = bool(mismatches) or not pr["ok"]
